@@ -211,6 +211,9 @@ class Ctx:
         self.inlinable = inlinable                # {(modname, class or None, name)}
         self.method_fp = {}
         self.ancestors = {}                       # class -> ancestor classes defined in the same module
+        self.module_consts = {}                   # module-level name bound once to an immutable literal -> its node
+        self.created = {}                         # helper key -> times a reference to it was resolved
+        self.consumed = {}                        # helper key -> times such a reference was evaluated in place
 
 
 class FuncGraph:
@@ -358,8 +361,11 @@ class FuncGraph:
             return v
         if n.id in self.outer_env:
             return self.outer_env[n.id]
+        if n.id in self.ctx.module_consts:
+            return self.expr(self.ctx.module_consts[n.id], State({}, self.h("heap0"), self.h("exit0")))
         m = self.resolve_method(n, st)
         if m is not None:
+            self.ctx.created[(m[1], m[0].name)] = self.ctx.created.get((m[1], m[0].name), 0) + 1
             self.inlined.add((m[1], m[0].name))
             vn = self.h("boundmethod", "-", self.method_fingerprint(m[0], m[1]))
             self.bound[vn] = (m[0], m[1], m[2], None)
@@ -375,6 +381,7 @@ class FuncGraph:
         m = self.resolve_method(n, st)
         if m is not None:
             callee, cls, kind = m
+            self.ctx.created[(cls, callee.name)] = self.ctx.created.get((cls, callee.name), 0) + 1
             self.inlined.add((cls, callee.name))
             vn = self.h("boundmethod", b if kind in ("method", "class") else "-", self.method_fingerprint(callee, cls))
             self.bound[vn] = (callee, cls, kind, b)
@@ -689,6 +696,7 @@ class FuncGraph:
             return None            # never returns normally: leave it opaque
         st.heap, st.exit, st.occ, st.ver = sub.heap, sub.exit, sub.occ, sub.ver
         self.inlined.add(key)
+        self.ctx.consumed[key] = self.ctx.consumed.get(key, 0) + 1
         return sub.dval
 
     def liftable(self, f):
@@ -1498,6 +1506,7 @@ def module_fingerprints(tree, modname, is_pkg=False, known_modules=(), inlinable
     mod_funcs, mod_classes = module_tables(tree)
     ctx = Ctx(modname, is_pkg, imports, module_names, loggers, known_modules, mod_funcs, mod_classes, inlinable)
     ctx.ancestors = same_module_ancestors(tree)
+    ctx.module_consts = module_constants(tree)
     funcs, residue, inlined = {}, [], set()
 
     def add(key, fnode, cls):
@@ -1549,16 +1558,22 @@ def module_fingerprints(tree, modname, is_pkg=False, known_modules=(), inlinable
             return                     # guarded imports
         elif isinstance(st, ast.Assign) and isinstance(st.value, ast.Call) and ast.unparse(st.value.func) in ("logging.getLogger", "getLogger"):
             return                     # a module logger
+        elif isinstance(st, (ast.Assign, ast.AnnAssign)) and isinstance(getattr(st, "target", None) or st.targets[0], ast.Name) \
+                and (getattr(st, "target", None) or st.targets[0]).id in ctx.module_consts:
+            nm = (getattr(st, "target", None) or st.targets[0]).id
+            consts[nm] = _h(ast.dump(ctx.module_consts[nm]))
+            return                     # a literal constant: its uses read the literal; the name itself is compared separately
         else:
             mstmts.append(st)
-    mstmts = []
+    mstmts, consts = [], {}
     for st in tree.body:
         top(st)
     if mstmts:
         residue.append(("mbody", scope_fp(mstmts)))
     exported = sorted((k, v) for k, v in imports.items() if is_pkg)
+    transparent = sorted(f"{c}.{n}" if c else n for (c, n), k in ctx.created.items() if 0 < k <= ctx.consumed.get((c, n), 0))
     return {"funcs": funcs, "residue": _h(repr(residue), repr(exported)),
-            "inlined": sorted(f"{c}.{n}" if c else n for c, n in inlined)}
+            "inlined": sorted(f"{c}.{n}" if c else n for c, n in inlined), "transparent": transparent, "consts": consts}
 
 
 def _residue_text(st):
@@ -1567,6 +1582,37 @@ def _residue_text(st):
     if isinstance(s, ast.AnnAssign) and s.value is not None:
         s = ast.Assign(targets=[s.target], value=s.value, lineno=0, col_offset=0)
     return ast.unparse(s)
+
+
+def _immutable_literal(n):
+    if isinstance(n, ast.Constant):
+        return not isinstance(n.value, bytes)
+    if isinstance(n, ast.UnaryOp) and isinstance(n.op, (ast.USub, ast.UAdd)):
+        return isinstance(n.operand, ast.Constant) and isinstance(n.operand.value, (int, float))
+    if isinstance(n, ast.Tuple):
+        return all(_immutable_literal(e) for e in n.elts)
+    return False
+
+
+def module_constants(tree):
+    """Module-level names bound exactly once, to an immutable literal, and never re-bound (no other module-level store,
+    no `global` statement anywhere): reading such a name is reading the literal."""
+    stores = {}
+    for st in tree.body:
+        for n in ast.walk(st) if not isinstance(st, (ast.FunctionDef, ast.AsyncFunctionDef, ast.ClassDef)) else []:
+            if isinstance(n, ast.Name) and isinstance(n.ctx, (ast.Store, ast.Del)):
+                stores[n.id] = stores.get(n.id, 0) + 1
+    globals_ = {nm for n in ast.walk(tree) if isinstance(n, (ast.Global, ast.Nonlocal)) for nm in n.names}
+    out = {}
+    for st in tree.body:
+        v, t = None, None
+        if isinstance(st, ast.Assign) and len(st.targets) == 1 and isinstance(st.targets[0], ast.Name):
+            t, v = st.targets[0].id, st.value
+        elif isinstance(st, ast.AnnAssign) and isinstance(st.target, ast.Name) and st.value is not None:
+            t, v = st.target.id, st.value
+        if t and stores.get(t) == 1 and t not in globals_ and _immutable_literal(v):
+            out[t] = v
+    return out
 
 
 def same_module_ancestors(tree):
